@@ -47,6 +47,57 @@ Definition FInv (ft : ftab) : Prop :=
 Definition CInv (cfg : srvcfg) (c : conn) : Prop :=
   FInv (c_fids c) /\ c_IOHDRSZ <= c_msize c /\ c_msize c <= s_msize cfg /\ s_msize cfg <= u32max.
 
+(* ---------- the other attributes the protocol rules consult ---------- *)
+(* Open state of a fid: 0 = not open, 1 + mode = open with that mode.  (The
+   Omode recorded on a fid that is not open is not observable: the rules read
+   it only on an open fid.) *)
+Definition ocode (fr : fidrec) : N := if f_opened fr then 1 + f_omode fr else 0.
+Definition oabs (ft : ftab) : valid := map (fun kr => (fst kr, ocode (snd kr))) ft.
+
+(* fid number |-> open state, driven by the request and the reply it got *)
+Definition ospec_step (v : valid) (t : msg) (reply : msg) : valid :=
+  match t, reply with
+  | Tauth_ afid _ _ _, Rauth_ _ => vset v afid 0
+  | Tattach_ fid _ _ _ _, Rattach_ _ => vset v fid 0
+  | Twalk_ fid nf names, Rwalk_ qs =>
+    if (length qs =? length names)%nat && negb (fid =? nf) then
+      match vget v fid with Some _ => vset v nf 0 | None => v end
+    else v
+  | Topen_ fid mode, Ropen_ _ _ =>
+    match vget v fid with Some _ => vset v fid (1 + mode) | None => v end
+  | Tcreate_ fid _ _ mode _, Rcreate_ _ _ =>
+    match vget v fid with Some _ => vset v fid (1 + mode) | None => v end
+  | Tclunk_ fid, Rclunk_ => vdel v fid
+  | Tremove_ fid, _ => vdel v fid
+  | _, _ => v
+  end.
+
+Fixpoint ospec_run (v : valid) (h : list (msg * msg)) : valid :=
+  match h with [] => v | (t, r) :: rest => ospec_run (ospec_step v t r) rest end.
+
+(* fid number |-> type bits (QTDIR / QTAUTH / ...), driven by the request and the reply it got *)
+Definition tabs (ft : ftab) : valid := map (fun kr => (fst kr, f_type (snd kr))) ft.
+
+Definition tspec_step (v : valid) (t : msg) (reply : msg) : valid :=
+  match t, reply with
+  | Tauth_ afid _ _ _, Rauth_ _ => vset v afid c_QTAUTH
+  | Tattach_ fid _ _ _ _, Rattach_ q => vset v fid (q_type q)
+  | Twalk_ fid nf names, Rwalk_ qs =>
+    (* complete walk: the fid that now designates the result (nf; = fid for an
+       in-place walk) takes the type of the last qid (of fid for an empty walk) *)
+    if (length qs =? length names)%nat then
+      match vget v fid with Some ty => vset v nf (last_qid_type qs ty) | None => v end
+    else v
+  | Tcreate_ fid _ _ _ _, Rcreate_ q _ =>
+    match vget v fid with Some _ => vset v fid (q_type q) | None => v end
+  | Tclunk_ fid, Rclunk_ => vdel v fid
+  | Tremove_ fid, _ => vdel v fid
+  | _, _ => v
+  end.
+
+Fixpoint tspec_run (v : valid) (h : list (msg * msg)) : valid :=
+  match h with [] => v | (t, r) :: rest => tspec_run (tspec_step v t r) rest end.
+
 (* ---------- event observers ---------- *)
 Definition is_fwd (e : event) : bool := match e with EvFwd _ _ _ | EvAuth _ _ => true | _ => false end.
 Definition forwarded (ev : list event) : bool := existsb is_fwd ev.
@@ -68,6 +119,11 @@ Definition fid_ok (c : conn) (t : msg) : bool :=
 
 (* count limit over the natural numbers (no wrap-around) *)
 Definition count_ok (c : conn) (cnt : N) : bool := cnt + c_IOHDRSZ <=? c_msize c.
+
+(* the access mode is the low two bits of the open mode; OREAD and OEXEC ("read but check
+   execute permission") are not modes one may write in *)
+Definition open_for_writing (omode : N) : bool :=
+  (N.land omode 3 =? c_OWRITE) || (N.land omode 3 =? c_ORDWR).
 
 Definition rules_ok (cfg : srvcfg) (c : conn) (t : msg) (sc : script) : bool :=
   match t with
@@ -103,7 +159,7 @@ Definition rules_ok (cfg : srvcfg) (c : conn) (t : msg) (sc : script) : bool :=
     match fget (c_fids c) fid with
     | Some fr =>
       if fid_isauth fr then s_auth cfg
-      else f_opened fr && negb (fid_isdir fr) && negb (N.land (f_omode fr) 3 =? c_OREAD)
+      else f_opened fr && negb (fid_isdir fr) && open_for_writing (f_omode fr)
            && count_ok c (len data)
     | None => false end
   | Tclunk_ fid =>
